@@ -116,7 +116,7 @@ Qed.
 Lemma transfer_preserves_ok : forall fuel fx libs orphan, transfer_ok (transfer fuel fx libs orphan).
 Proof.
   induction fuel as [|f IH]; intros fx libs orphan u s s' m c n Hu Hs H; cbn [transfer] in H; [discriminate|].
-  destruct (models_equivalent_units libs (us_T s) (if orphan then [u] else us_S s) (u_name u) (us_T s)) as [tg| | |];
+  destruct (models_equivalent_units libs (us_T s) (transfer_home orphan u s) (transfer_qname orphan u) (us_T s)) as [tg| | |];
     cbn [fbind] in H; try discriminate.
   destruct tg as [tname|].
   - destruct (String.eqb tname (u_name u)); inversion H; subst; [exact Hs | apply us_op_ok; exact Hs].
